@@ -95,6 +95,9 @@ func (v DenseReal64Vector) SLICE(i, j int) DenseReal64Vector {
   return v[i:j]
 }
 func (v DenseReal64Vector) APPEND(w DenseReal64Vector) DenseReal64Vector {
+  // v might be a slice of a longer vector, do not
+  // overwrite the elements behind it
+  v = v[:len(v):len(v)]
   return append(v, w...)
 }
 func (v DenseReal64Vector) ToDenseReal64Matrix(n, m int) *DenseReal64Matrix {
@@ -148,6 +151,9 @@ func (v DenseReal64Vector) Swap(i, j int) {
   v[i], v[j] = v[j], v[i]
 }
 func (v DenseReal64Vector) AppendScalar(scalars ...Scalar) Vector {
+  // v might be a slice of a longer vector, do not
+  // overwrite the elements behind it
+  v = v[:len(v):len(v)]
   for _, scalar := range scalars {
     switch s := scalar.(type) {
     case *Real64:
@@ -159,6 +165,9 @@ func (v DenseReal64Vector) AppendScalar(scalars ...Scalar) Vector {
   return v
 }
 func (v DenseReal64Vector) AppendVector(w_ Vector) Vector {
+  // v might be a slice of a longer vector, do not
+  // overwrite the elements behind it
+  v = v[:len(v):len(v)]
   switch w := w_.(type) {
   case DenseReal64Vector:
     return append(v, w...)
@@ -227,6 +236,9 @@ func (v DenseReal64Vector) ResetDerivatives() {
   }
 }
 func (v DenseReal64Vector) AppendMagicScalar(scalars ...MagicScalar) MagicVector {
+  // v might be a slice of a longer vector, do not
+  // overwrite the elements behind it
+  v = v[:len(v):len(v)]
   for _, scalar := range scalars {
     switch s := scalar.(type) {
     case *Real64:
@@ -238,6 +250,9 @@ func (v DenseReal64Vector) AppendMagicScalar(scalars ...MagicScalar) MagicVector
   return v
 }
 func (v DenseReal64Vector) AppendMagicVector(w_ MagicVector) MagicVector {
+  // v might be a slice of a longer vector, do not
+  // overwrite the elements behind it
+  v = v[:len(v):len(v)]
   switch w := w_.(type) {
   case DenseReal64Vector:
     return append(v, w...)
